@@ -311,10 +311,10 @@ fn recursive_specs(n: usize, quick: bool) -> Vec<Spec> {
 
 pub fn run(ctx: &Ctx) -> CheckOutput {
     let quick = ctx.tier == Tier::Quick;
-    let mut ns: Vec<usize> = if quick { (1..=16).chain([20, 24, 32, 48, 64]).collect() } else { (1..=64).collect() };
-    let big: Vec<usize> = if quick { vec![128, 1000] } else { vec![96, 128, 256, 512, 1000] };
+    let mut ns: Vec<usize> = if quick { (1..=16).chain([20, 24, 32, 48, 64]).collect() } else { (1..=128).collect() };
+    let big: Vec<usize> = if quick { vec![128, 1000] } else { vec![192, 256, 384, 512, 768, 1000] };
     ns.extend(big.iter());
-    let pre_small = sequences_upto(&[0.0, 1.0, -1.0], if quick { 2 } else { 4 });
+    let pre_small = sequences_upto(&[0.0, 1.0, -1.0], if quick { 2 } else { 5 });
     let pre_big = sequences_upto(&[0.0, 1.0, -1.0], if quick { 1 } else { 2 });
     let mut jobs: Vec<Job> = vec![];
     for n in ns {
